@@ -14,6 +14,13 @@ import (
 // rows `rows` of a float32 tensor along `axis`
 func selectRows(t tensor.Tensor, axis int, rows []int) tensor.Tensor {
 	s := []int(t.Shape())
+	if d32, ok := t.Data().([]int32); ok && len(s) == 1 { // sequence_lens: one entry per sample
+		out := make([]int32, len(rows))
+		for i, r := range rows {
+			out[i] = d32[r]
+		}
+		return tensor.New(tensor.WithShape(len(rows)), tensor.WithBacking(out))
+	}
 	d := t.Data().([]float32)
 	outer, inner := 1, 1
 	for i := 0; i < axis; i++ {
@@ -43,6 +50,9 @@ type batchModel struct {
 	outputs []string
 	outAxis []int
 	stress  bool // known to hit the gorgonia softmax last-axis defect (C09 class 1)
+	// the model uses a feature the library may refuse (sequence_lens): a refusal of the batch is
+	// accepted when every sample alone and every selection is refused as well
+	mayRefuse bool
 }
 
 func f32T(r *rand.Rand, scale float64, shape ...int) tensor.Tensor {
@@ -144,6 +154,28 @@ func generatedBatchModels(r *rand.Rand) []*batchModel {
 			},
 			bytes: buildModel([]*onnx.NodeProto{nd(op.name, ins, outs, aI("hidden_size", int64(H)))},
 				map[string]tensor.Tensor{"w": f32T(r, 1, 1, op.g*H, I), "r": f32T(r, 1, 1, op.g*H, H), "b": f32T(r, 1, 1, 2*op.g*H)}, names, ranks, outs)})
+		// the optional sequence_lens input (one length per sample): refused by the library; if it is ever
+		// accepted, whether a sample is evaluated, and to what, must not depend on the rest of the batch
+		insL := append([]string{}, ins...)
+		insL[4] = "lens"
+		namesL := append([]string{"x", "lens"}, names[1:]...)
+		add(&batchModel{name: "node-" + op.name + "-sequence-lens", inputs: namesL, inAxis: append([]int{1, 0}, iax[1:]...), outputs: outs, outAxis: oax, mayRefuse: true,
+			mk: func(n int, r *rand.Rand) []tensor.Tensor {
+				lens := make([]int32, n)
+				for i := range lens {
+					lens[i] = int32(S)
+					if r.Intn(2) == 0 {
+						lens[i] = int32(1 + r.Intn(S))
+					}
+				}
+				ts := []tensor.Tensor{f32T(r, 1, S, n, I), tensor.New(tensor.WithShape(n), tensor.WithBacking(lens)), f32T(r, 1, 1, n, H)}
+				if op.name == "LSTM" {
+					ts = append(ts, f32T(r, 1, 1, n, H))
+				}
+				return ts
+			},
+			bytes: buildModel([]*onnx.NodeProto{nd(op.name, insL, outs, aI("hidden_size", int64(H)))},
+				map[string]tensor.Tensor{"w": f32T(r, 1, 1, op.g*H, I), "r": f32T(r, 1, 1, op.g*H, H), "b": f32T(r, 1, 1, 2*op.g*H)}, namesL, append([]int{3, 1}, ranks[1:]...), outs)})
 		// default initial state, last time step taken with Gather (as sample_models/ndm.onnx does)
 		add(&batchModel{name: "node-" + op.name + "-squeeze-gather-last", inputs: []string{"x"}, inAxis: []int{1}, outputs: []string{"y"}, outAxis: []int{0},
 			mk: one(func(n int) []int { return []int{S, n, I} }, 1),
@@ -234,7 +266,7 @@ func genC16(dir, tier string, seed int64) {
 			}})
 	}
 	models = append(models, generatedBatchModels(r)...)
-	res := goOnlyResult{Stream: "C16_batch_vs_rows", Rule: "the loadable sample models (mlp, gru, scaler, ndm) and generated models built from the per-sample operator families (Gemm/MatMul against weights incl. the batched-MatMul path, Conv 1-D/2-D, RNN/GRU/LSTM with given and default states, elementwise chains against broadcast weights, PRelu, Softmax/LogSoftmax over non-batch axes, batch-preserving Unsqueeze/Transpose/Squeeze/Concat/Reshape/Slice/Gather, ReduceMax/Min over non-batch axes, Scaler/LinearRegressor): a batch of N = 1..5 random samples is evaluated; then every sample alone (N = 1), the batch in a random permutation, and a random sub-selection (incl. repeated rows); every output row must agree with the row computed in the other composition within |a-b| <= 1e-5 (1+|a|) (the repository's own delta)", Violations: []string{}, Known: map[string]int{}}
+	res := goOnlyResult{Stream: "C16_batch_vs_rows", Rule: "the loadable sample models (mlp, gru, scaler, ndm) and generated models built from the per-sample operator families (Gemm/MatMul against weights incl. the batched-MatMul path, Conv 1-D/2-D, RNN/GRU/LSTM with given and default states and with a per-sample sequence_lens input (refused today: then every selection of the batch must be refused as well), elementwise chains against broadcast weights, PRelu, Softmax/LogSoftmax over non-batch axes, batch-preserving Unsqueeze/Transpose/Squeeze/Concat/Reshape/Slice/Gather, ReduceMax/Min over non-batch axes, Scaler/LinearRegressor): a batch of N = 1..5 random samples is evaluated; then every sample alone (N = 1), the batch in a random permutation, and a random sub-selection (incl. repeated rows); every output row must agree with the row computed in the other composition within |a-b| <= 1e-5 (1+|a|) (the repository's own delta)", Violations: []string{}, Known: map[string]int{}}
 	reps := 2
 	if tier == "thorough" {
 		reps = 40
@@ -288,6 +320,21 @@ func genC16(dir, tier string, seed int64) {
 					}
 				}
 				res.N++
+				if err != nil && bm.mayRefuse {
+					// a refused batch: every sample alone, and every selection, must be refused too
+					perm := r.Perm(N)
+					sels := [][]int{perm, {perm[0], perm[N-1], perm[0]}}
+					for i := 0; i < N; i++ {
+						sels = append(sels, []int{i})
+					}
+					for _, rows := range sels {
+						res.N++
+						if _, e2 := run(m, bm, sel(bm, ins, rows)); e2 == nil {
+							fail(fmt.Sprintf("the batch is refused (%v) but rows %v of it are evaluated: whether a sample is evaluated depends on the rest of the batch", err, rows))
+						}
+					}
+					continue
+				}
 				if err != nil {
 					fail(fmt.Sprintf("the batch fails: %v", err))
 					continue
